@@ -142,6 +142,7 @@ def mon_c03(run, variance):
             op, t, tm = e[1], e[2], e[3]
             if op == "schedule":
                 sched[t] = (e[6][0], e[6][3])
+                tried[t] = []            # attempts are counted from the latest (re-)schedule
             elif op == "start":
                 drawn = e[6][0]
                 started[t] = (tm, drawn)
